@@ -50,7 +50,8 @@ func TestC10NoHalt(t *testing.T) {
 		// be resolved by the backup workers or fail
 		traffic := rapid.SampledFrom([]string{"hostile", "hostile", "hostile+registry", "debond+registry", "hostile+rtheavy", "rtheavy", "hostile+gov", "gov"}).Draw(t, "traffic")
 		if spec.WithRuntime && rapid.Bool().Draw(t, "rtTraffic") {
-			traffic = rapid.SampledFrom([]string{"hostile+rtheavy", "rtheavy"}).Draw(t, "rtTrafficKind")
+			// (with "+registry" the runtime's descriptor is updated along the way: timeouts, committee sizes, governance)
+			traffic = rapid.SampledFrom([]string{"hostile+rtheavy", "rtheavy", "rtheavy+registry", "hostile+rtheavy+registry"}).Draw(t, "rtTrafficKind")
 			if iv := int64(rapid.SampledFrom([]int{0, 8, 12, 20}).Draw(t, "rtEpochInterval")); iv > spec.EpochInterval {
 				spec.EpochInterval = iv
 			}
